@@ -207,6 +207,13 @@ impl Check for C01 {
                 run_history(&ops, rng, out, 0);
                 out.count("large_chunk_large_payload_histories", 1);
             }
+            // one message cut into more than 65,536 chunks (counters and per-call bounds), delivered
+            // whole, per packet and in random pieces
+            for (size, len) in [(1u32, 65_536usize), (1, 65_537), (1, 70_000), (2, 131_073), (3, 200_000)] {
+                let ops = vec![Op::SetChunk { size, ts: 0 }, mk(9, 1, 5, len), mk(8, 1, 6, 3)];
+                run_history(&ops, rng, out, 2);
+                out.count("histories_with_a_message_of_more_than_65536_chunks", 1);
+            }
             if tier == Tier::Thorough {
                 // the largest message the protocol allows, through tiny and huge chunk sizes
                 let big = vec![Op::SetChunk { size: 65536, ts: 0 }, mk(9, 1, 77, 16_777_215), mk(9, 1, 78, 1)];
